@@ -41,6 +41,13 @@ fn main() {
                 i += 1;
                 replay = Some(args.get(i).cloned().unwrap_or_else(|| usage()));
             }
+            "--worker" => {
+                match id.as_str() {
+                    "C06" => props::c06::worker_main(),
+                    _ => {}
+                }
+                std::process::exit(0);
+            }
             "quick" => tier = Tier::Quick,
             "thorough" => tier = Tier::Thorough,
             _ => usage(),
